@@ -79,6 +79,10 @@ def main():
         mp = os.path.join(d, "meta.json")
         meta = json.load(open(mp)) if os.path.exists(mp) else {"id": sid}
         rc, out = sh(f"git apply {d}/patch.diff", ROOT)
+        rb = os.path.join(d, "patch.rebased-6c42047.diff")
+        if rc != 0 and os.path.exists(rb):      # the stored change was made on the parent of the look-ahead repair: use its re-based form
+            rc, out = sh(f"git apply {rb}", ROOT)
+            meta["evaluated_patch"] = os.path.basename(rb)
         fired = {}
         try:
             if rc != 0:
